@@ -143,6 +143,14 @@ func pointsFoldCase(c *Ctx) {
 			return
 		}
 	}
+	var storedIdx []int
+	for i := 0; i < k; i++ {
+		if !(i == k-1 && newestInProgress) {
+			storedIdx = append(storedIdx, i)
+		}
+	}
+	// cs-* lines (s_consstore.go), emitted when the case is over — also when a monitor below ends it early
+	defer csFoldPoints(c, kv, sdb, storedIdx, func(i int) *storage.Point { return specs[i].build(hashes[i], hashes[i+1]) })
 	get := func(d *storage.DB, i int) *storage.Point {
 		if i == k-1 && newestInProgress {
 			return specs[i].build(hashes[i], hashes[i+1]) // generatePointFromChain: a new object on every read
